@@ -186,6 +186,37 @@ def job_est(ctx, ename, k, lo, hi):
                     if abs(abs(q[0]) - 1) > 1e-12:
                         ctx.seen((ename, lab, frame, dip, sa, sm))
                     ctx.cls('tilt-only' if est.tilt_only else est.cls)
+    # the N-sample entry point: the whole chunk of attitudes as ONE record (and reversed), every row judged like a single call
+    if est.batch is not None and atts:
+        for frame in est.frames:
+            for dip in dips[:2]:
+                g, m = est.refs(dip, frame)
+                if abs(float(g @ m)) > 0.9999:
+                    continue
+                sa, sm = scal[-1]
+                for order_name, seq in (('forward', atts), ('reversed', atts[::-1])):
+                    meas = [est.measurements(rq.R(q), dip, frame, sa, sm) for _, q in seq]
+                    Acc = np.array([x[0] for x in meas]); Mag = np.array([x[1] for x in meas])
+                    if est.seeded:
+                        np.random.random = lambda n=4: OLEQ_STARTS[0].copy()
+                    try:
+                        out = est.batch(Acc.copy(), None if est.tilt_only else Mag.copy(), dip, frame)
+                    except Exception as ex:
+                        ctx.evals += 1
+                        ctx.fail(f'{ename}.batch: raises', f'est={ename} frame={frame} dip={dip:g} rows={order_name}', f'{type(ex).__name__}: {ex}'[:160], 'N attitudes')
+                        continue
+                    finally:
+                        np.random.random = real_random
+                    out = list(out) if len(out) == len(seq) else [None] * len(seq)
+                    tolb = tol0 if max(sa / sm, sm / sa) <= 1e2 else max(tol0, 1e-6)
+                    if est.seeded:
+                        rho = (0.5 + abs(float(g @ m))) / 1.5
+                        tolb = max(tolb, 1e-7 * rho / (1.0 - rho))
+                    for ri_, ((lab, q), o) in enumerate(zip(seq, out)):
+                        a_, m_ = meas[ri_]
+                        _judge(ctx, est, o if o is not None else np.zeros(1), g, m, a_, m_, sa, sm, tolb, f'{ename}.batch: row maps references onto measurements',
+                               f'est={ename} att={lab} frame={frame} dip={dip:g} scale=({sa:g},{sm:g}) row={ri_} rows={order_name}')
+                    ctx.cls('batch-rows')
     if atts:
         lab, q = atts[0]
         a, mg = est.measurements(rq.R(q), dips[0], est.frames[0], *scal[-1])
